@@ -89,6 +89,10 @@ fn aset(a: &mut AInst, k: Option<u64>, alt: bool) {
 pub fn small_logical(rng: &mut Rng, codec: u8) -> Logical {
     let mut l = gen::gen_logical(rng, gen::SizeClass::Small, codec);
     l.meta = gen::json_object(rng, 3, 5);
+    // never empty: a swallowed metadata read error must be distinguishable from the real metadata
+    l.meta.insert(String::from("name"), Value::String(String::from("fault injection")));
+    l.meta.insert(String::from("vector_layers"), Value::Array(vec![Value::String(String::from("water"))]));
+    l.tile_type = (rng.below(6)) as u8;
     l
 }
 
@@ -114,6 +118,10 @@ pub fn spill_logical(rng: &mut Rng, codec: u8, n: usize) -> Logical {
         coords: [-10.0, -20.0, 30.0, 40.0, 1.5, 2.5],
         class: format!("spill{n}"),
     }
+}
+
+fn cycle_tile_type(l: &mut Logical, k: usize) {
+    l.tile_type = (k % 6) as u8;
 }
 
 fn entries_for(rng: &mut Rng, n: usize) -> Vec<REntry> {
@@ -148,7 +156,12 @@ pub fn scenarios(ctx: &Ctx, rng: &mut Rng) -> Vec<Scenario> {
             // quick tier: the None codec gets a leaf archive too, faults sampled (see run)
             logicals.push((String::from("leaves"), Rc::new(spill_logical(rng, codec, spill_n))));
         }
-        for (lname, l) in logicals {
+        for (li, (lname, l)) in logicals.into_iter().enumerate() {
+            let l = {
+                let mut m = l.as_ref().clone();
+                cycle_tile_type(&mut m, li * 3 + codec as usize); // all tile types across the scenario set
+                Rc::new(m)
+            };
             let bytes = Rc::new(write_sync(l.build()).expect("fault-free write"));
             if lname == "leaves" {
                 let h = R::header_unpack(&bytes).expect("header");
